@@ -72,6 +72,35 @@ func filterImage(image bufimage.Image, options *imageFilterOptions) (bufimage.Im
 	if err := closure.addExtensions(imageIndex, options); err != nil {
 		return nil, err
 	}
+	if len(options.includeTypes) == 0 {
+		// Without includes every kept file keeps all of its (not excluded) elements, imported files
+		// too. Walk those elements as well, so that what they need is part of the closure.
+		walked := make(map[string]struct{})
+		for changed := true; changed; {
+			changed = false
+			for _, file := range image.Files() {
+				if !file.IsImport() {
+					continue
+				}
+				if _, ok := closure.imports[file.Path()]; !ok {
+					continue
+				}
+				if _, ok := walked[file.Path()]; ok {
+					continue
+				}
+				walked[file.Path()] = struct{}{}
+				changed = true
+				fileDescriptorProto := file.FileDescriptorProto()
+				if mode := closure.elements[fileDescriptorProto]; mode == inclusionModeExcluded {
+					continue
+				}
+				delete(closure.elements, fileDescriptorProto) // may be marked as enclosing only
+				if err := closure.addElement(fileDescriptorProto, "", false, imageIndex, options); err != nil {
+					return nil, err
+				}
+			}
+		}
+	}
 
 	// Loop over image files in revserse DAG order. Imports that are no longer
 	// imported by a previous file are dropped from the image.
